@@ -102,9 +102,12 @@ func c16Encoders(c *run.C) {
 			}
 			c.Observe("encoder_fault_runs", 1)
 			if fw.Writes < k {
-				// the failing write was never reached (cannot happen: same stream)
-				c.Violationf("harness", "harness:fault-not-reached", "write %d of %d not reached", k, W)
-				return
+				// the failing write was never reached: an encoder that buffers its
+				// output issues a number of writes that depends on the byte
+				// length, and typed map events iterate in random order (another
+				// order, other integer widths next to each other, another length)
+				c.Observe("fault_positions_not_reached", 1)
+				continue
 			}
 			if first == nil {
 				c.Violationf("sink-error-lost", fmt.Sprintf("%s:sink-error-lost:%s", cd.Name, lostAt(s, k, cd, o)), "%s encoder: write #%d of %d failed (and every later one) but all %d events returned nil (continue-after-error=%v)\nstream=%s",
